@@ -385,6 +385,9 @@ ADDENDA = {
            "that the delay is exactly the level from which the axis is within sqrt(2) of the finest one "
            "(delay_is_the_level_of_near_isotropy); every raw / compressed_segmentation scale of a generated info is served "
            "by get_encoder (generated_scales_served_by_encoders).",
+    "C12": " Also: chunk paths are confined like file names (FileStore.chunkRefused; theorem escaping_chunk_keys_refused): a "
+           "scale key that makes the chunk name absolute or contains '..' is refused by store_chunk and fetch_chunk; found and "
+           "repaired as F38 (FileAccessor) and F39 (sharded accessor).",
     "C13": " Also: the whole loop model (Convert.run) is executed next to the real command, including a removed or "
            "truncated source chunk (the conversion must fail, never return normally).",
     "C15": " Also: the WHOLE chunk loop of slices_to_raw_chunks as an index-level model (stackChunks: slice groups, "
